@@ -236,4 +236,65 @@ SPEC = {
             )
         },
     },
+    "EncoderSites": {
+        "sites": {
+            # homogeneous_poisson_exp_interval (offline)
+            "exp_refrac_ms": {"file": "inferno/neural/functional/encoding.py", "cls": None, "method": "homogeneous_poisson_exp_interval",
+                              "target": "refrac", "nth": 0, "params": {"step_time": R, "refrac": "opt real"}},
+            "exp_refrac_steps": {"file": "inferno/neural/functional/encoding.py", "cls": None, "method": "homogeneous_poisson_exp_interval",
+                                 "target": "refrac", "nth": 1, "params": {"refrac": R, "step_time": R}},
+            "exp_scale": {"file": "inferno/neural/functional/encoding.py", "cls": None, "method": "homogeneous_poisson_exp_interval",
+                          "target": "res", "nth": 0, "params": {"inputs": R, "step_time": R}},
+            "exp_scale_compensated": {"file": "inferno/neural/functional/encoding.py", "cls": None, "method": "homogeneous_poisson_exp_interval",
+                                      "target": "res", "nth": 1, "params": {"res": R, "refrac": R}},
+            "exp_nbins": {"file": "inferno/neural/functional/encoding.py", "cls": None, "method": "homogeneous_poisson_exp_interval",
+                          "target": "nbins", "params": {"steps": R, "refrac": R}},
+            "exp_interval": {"file": "inferno/neural/functional/encoding.py", "cls": None, "method": "homogeneous_poisson_exp_interval",
+                             "target": "res", "nth": 2,
+                             "rename": {"res.new_empty(nbins, *inputs.shape).exponential_(1.0, generator=generator)": "sample"},
+                             "params": {"sample": R, "res": R, "refrac": R}},
+            # … and online
+            "expon_refrac_ms": {"file": "inferno/neural/functional/encoding.py", "cls": None, "method": "homogeneous_poisson_exp_interval_online",
+                                "target": "refrac", "nth": 0, "params": {"step_time": R, "refrac": "opt real"}},
+            "expon_refrac_steps": {"file": "inferno/neural/functional/encoding.py", "cls": None, "method": "homogeneous_poisson_exp_interval_online",
+                                   "target": "refrac", "nth": 1, "params": {"refrac": R, "step_time": R}},
+            "expon_scale": {"file": "inferno/neural/functional/encoding.py", "cls": None, "method": "homogeneous_poisson_exp_interval_online",
+                            "target": "inputs", "nth": 0, "params": {"inputs": R, "step_time": R}},
+            "expon_scale_compensated": {"file": "inferno/neural/functional/encoding.py", "cls": None, "method": "homogeneous_poisson_exp_interval_online",
+                                        "target": "inputs", "nth": 1, "params": {"inputs": R, "refrac": R}},
+            "expon_first_interval": {"file": "inferno/neural/functional/encoding.py", "cls": None, "method": "homogeneous_poisson_exp_interval_online",
+                                     "target": "intervals",
+                                     "rename": {"torch.empty_like(inputs).exponential_(1.0, generator=generator)": "sample"},
+                                     "params": {"sample": R, "inputs": R, "refrac": R}},
+            "expon_spike": {"file": "inferno/neural/functional/encoding.py", "cls": None, "method": "homogeneous_poisson_exp_interval_online",
+                            "target": "spikes", "params": {"intervals": R}},
+            "expon_next_interval": {"file": "inferno/neural/functional/encoding.py", "cls": None, "method": "homogeneous_poisson_exp_interval_online",
+                                    "target": "intervals[spikes]",
+                                    "rename": {"torch.empty_like(intervals[spikes]).exponential_(1.0, generator=generator)": "sample",
+                                               "inputs[spikes]": "inputs"},
+                                    "params": {"sample": R, "inputs": R, "refrac": R}},
+            # poisson_interval (offline / online): rate -> expected interval in steps, the validity mask, the online spike test
+            "poi_mask": {"file": "inferno/neural/functional/encoding.py", "cls": None, "method": "poisson_interval",
+                         "target": "mask", "params": {"inputs": R}},
+            "poi_mean_interval": {"file": "inferno/neural/functional/encoding.py", "cls": None, "method": "poisson_interval",
+                                  "target": "inputs", "params": {"inputs": R, "step_time": R}},
+            "poion_mask": {"file": "inferno/neural/functional/encoding.py", "cls": None, "method": "poisson_interval_online",
+                           "target": "mask", "params": {"inputs": R}},
+            "poion_mean_interval": {"file": "inferno/neural/functional/encoding.py", "cls": None, "method": "poisson_interval_online",
+                                    "target": "inputs", "params": {"inputs": R, "step_time": R}},
+            "poion_spike": {"file": "inferno/neural/functional/encoding.py", "cls": None, "method": "poisson_interval_online",
+                            "target": "spikes", "params": {"intervals": R, "mask": B}},
+            # Bernoulli approximations: spike probability per step
+            "bern_prob": {"file": "inferno/neural/functional/encoding.py", "cls": None, "method": "homogenous_poisson_bernoulli_approx",
+                          "target": "res", "params": {"inputs": R, "step_time": R}},
+            "bern_prob_clamped": {"file": "inferno/neural/functional/encoding.py", "cls": None, "method": "homogenous_poisson_bernoulli_approx",
+                                  "target": "return", "peel": ["bool", ("arg", "bernoulli", 0), ("arg", "repeat", 0)], "params": {"res": R}},
+            "bernon_prob": {"file": "inferno/neural/functional/encoding.py", "cls": None, "method": "homogenous_poisson_bernoulli_approx_online",
+                            "target": "res", "params": {"inputs": R, "step_time": R}},
+            "inhom_prob": {"file": "inferno/neural/functional/encoding.py", "cls": None, "method": "inhomogeneous_poisson_bernoulli_approx",
+                           "target": "res", "params": {"inputs": R, "step_time": R}},
+            "inhom_prob_clamped": {"file": "inferno/neural/functional/encoding.py", "cls": None, "method": "inhomogeneous_poisson_bernoulli_approx",
+                                   "target": "return", "peel": ["bool", ("arg", "bernoulli", 0)], "params": {"res": R}},
+        },
+    },
 }
